@@ -58,6 +58,13 @@ P = {
                   "on the real updates package (as a transaction does) on four column type groups and TLC validates ForEachModelUpdate / ForEachRowUpdate / GetModel.",
              note="Trusted: TLC, harness value instantiation; binding self-test in every shard. delete followed by re-insert is outside the model.",
              tech="TLC model checking of Merge.tla + enumerate-and-replay + TLC trace validation"),
+ "C17": dict(engine="tla-txn", cat="model_checking", ref="6 C17",
+             text="Server.tla models the transact handler as a lock protocol (lock, execute, notify, commit, reply) and TLC checks no lost increment, one "
+                  "winner and notification order = commit order, refuting the nolock and commitAfterUnlock variants; concurrent raw clients run contended "
+                  "workloads against the real server and TraceSerial.tla lets TLC search for a serial order (respecting real time) in which the reference "
+                  "model reproduces every result, every monitor's message sequence and the final contents.",
+             note="Trusted: TLC, per-call invocation/response stamps from one atomic counter; a failed call is placed without effect.",
+             tech="TLC model checking of Server.tla + linearisation search by TLC over recorded concurrent executions"),
  "C15": dict(engine="tla-txn", cat="model_checking", text=TXN_TEXT, note=TXN_NOTE, ref="6 C15",
              tech="type-directed name expansion in Txn.tla judging recorded transactions with named inserts"),
 }
